@@ -112,6 +112,8 @@ pub fn same_event(a: &Rec, b: &Rec) -> bool {
 #[derive(Clone, Default)]
 pub struct Collect(pub Rc<RefCell<Vec<Item>>>);
 
+impl writer::NonTransforming for Collect {}
+
 impl Writer<TW> for Collect {
     type Cli = cli::Empty;
     async fn handle_event(&mut self, ev: Item, _: &Self::Cli) {
